@@ -259,6 +259,19 @@ def b_hist(ctx):
                 want = int(((rng2[sel] >= 0) & (rng2[sel] <= 5)).sum())
                 if int(round(tot[node])) != want:
                     ctx.fail('C14:grouped-total', f'grouped range_histogram: node {node} has {tot[node]} cycles, expected {want}', {'from': fr, 'to': to})
+            # the range/mean histogram along the same axis (optional argument `axis`): per group, an integer bin count covers every cycle of the group
+            for nb in (1, 2):
+                try:
+                    h2g = dfg.load_collective.histogram(nb, 'cycle_number').to_pandas()
+                except Exception as e:   # noqa
+                    ctx.fail(f'C14:grouped-histogram-raises:{type(e).__name__}', f'histogram({nb}, axis) raises {type(e).__name__}: {e} for from={fr}, to={to}', {'from': fr, 'to': to})
+                    continue
+                ctx.case(True, key=(tuple(fr), tuple(to), 'grouped-2d', nb))
+                t2 = h2g.groupby('node').sum()
+                for node, sel in (('a', slice(0, None, 2)), ('b', slice(1, None, 2))):
+                    want = len((fr + fr)[sel])
+                    if int(round(t2[node])) != want:
+                        ctx.fail('C14:grouped-histogram-total', f'grouped histogram({nb}): node {node} has {t2[node]} cycles, expected {want} (from={fr}, to={to})', {'from': fr, 'to': to})
     ctx.sample({'from': [0.0, 3.0], 'to': [1.0, -2.0], 'bins': 'edges [0,1,2,5]'})
 
 
